@@ -182,6 +182,10 @@ class Skeleton:
             if not re.fullmatch(r"\d+", v) and v not in self.used_atoms:
                 self.used_atoms.append(v)
             return [pad + self.result(v, env)]
+        if k == "break":
+            if not getattr(self, "_brk", None):
+                raise PipelineError("%s: break outside a switch" % self.name)
+            return self.stmts(list(self._brk[-1]), env, ind)
         if k == "expr" and s[1][0] == "call" and s[1][1] == "jwt_write_error":
             args = s[1][2]
             obj = cmini.show(args[0])
@@ -205,11 +209,24 @@ class Skeleton:
             arms = s[2]
             default = None
             chain = []
-            for labels, body in arms:
-                if body and body[-1] == ("break",):
-                    body = body[:-1]
-                elif not (body and body[-1][0] == "return"):
-                    raise PipelineError("%s: a switch arm that falls through" % self.name)
+
+            def terminates(x):
+                if x[0] in ("return", "break"):
+                    return True
+                if x[0] == "block":
+                    return bool(x[1]) and terminates(x[1][-1])
+                if x[0] == "if":
+                    return x[3] is not None and terminates(x[2]) and terminates(x[3])
+                return False
+            if not hasattr(self, "_brk"):
+                self._brk = []
+            self._brk.append(rest)          # where a `break` (also one nested in an if) continues
+            for ai, (labels, body) in enumerate(arms):
+                if not (body and terminates(body[-1])):
+                    if ai == len(arms) - 1:
+                        body = list(body) + [("break",)]         # the last arm runs out of the switch
+                    else:
+                        raise PipelineError("%s: a switch arm that falls through" % self.name)
                 if "default" in labels:
                     default = body
                     labels = [l for l in labels if l != "default"]
@@ -220,12 +237,19 @@ class Skeleton:
             def build(i, ind2):
                 p2 = "  " * ind2
                 if i == len(chain):
-                    return self.stmts(list(default if default is not None else []) + rest, env, ind2)
+                    return self.stmts(list(default) if default is not None else [("break",)], env, ind2)
                 labels, body = chain[i]
-                cs = [self.cond(("bin", "==", s[1], l), env) for l in labels]
+                cs = []
+                for l in labels:
+                    c_ = self.cond(("bin", "==", s[1], l), env)
+                    if c_ not in cs:
+                        cs.append(c_)
                 c = cs[0] if len(cs) == 1 else "(" + " ∨ ".join(cs) + ")"
-                return [p2 + "if %s then" % c] + self.stmts(list(body) + rest, env, ind2 + 1) + [p2 + "else"] + build(i + 1, ind2 + 1)
-            return build(0, ind)
+                return [p2 + "if %s then" % c] + self.stmts(list(body), env, ind2 + 1) + [p2 + "else"] + build(i + 1, ind2 + 1)
+            try:
+                return build(0, ind)
+            finally:
+                self._brk.pop()
         if k == "for":
             # for (P = S; P[0] != '.'; P++) { if (P[0] == '\0') { …; return 1; } }   -- the scan for the next dot
             init, cnd, step, body = s[1], s[2], s[3], s[4]
@@ -457,6 +481,35 @@ def generate(repo):
                                  ("setkeyFails", "Bool"), ("headSetupFails", "Bool"), ("outNonNull", "Nat")],
          "jwt-common.c `jwt_builder_generate` (FUNC(generate)): result 0 = NULL, `outNonNull` = what `jwt_encode_str` returned (0 = NULL); `…SetOk` = the "
          "`jwt_claim_set` of iat / nbf / exp left `jval.error` at NONE; `setkeyFails` = `__setkey_check` on what the callback left refused")
+    # ================= the dispatch of jwt.c =================
+    jc_ = strip_c(open(os.path.join(repo, "libjwt/jwt.c")).read())
+    HM = ["JWT_ALG_HS256", "JWT_ALG_HS384", "JWT_ALG_HS512"]
+    PK = ["JWT_ALG_RS256", "JWT_ALG_RS384", "JWT_ALG_RS512", "JWT_ALG_PS256", "JWT_ALG_PS384", "JWT_ALG_PS512", "JWT_ALG_ES256", "JWT_ALG_ES256K", "JWT_ALG_ES384",
+          "JWT_ALG_ES512", "JWT_ALG_EDDSA"]
+    alg_atoms = dict([("(jwt->alg == %s)" % a, ("algIsHmac", "bool")) for a in HM] + [("(jwt->alg == %s)" % a, ("algIsPk", "bool")) for a in PK])
+    sk = Skeleton("jwt_sign", find_body(jc_, r"\nint\s+jwt_sign\s*\(", "jwt_sign"),
+                  atoms=dict(alg_atoms, **{"__check_hmac(jwt)": ("gateFails", "bool"), "sign_sha_hmac(jwt, out, len, str, str_len)": ("primFails", "bool"),
+                                           "__check_key_bits(jwt)": ("gateFails", "bool"), "jwt_ops->sign_sha_pem(jwt, out, len, str, str_len)": ("primFails", "bool")}),
+                  effects=set(), rets={"0": "0", "1": "1"})
+    emit(sk, "sign", [("algIsHmac", "Bool"), ("algIsPk", "Bool"), ("gateFails", "Bool"), ("primFails", "Bool")],
+         "jwt.c `jwt_sign`: `algIsHmac` / `algIsPk` = the algorithm is one of HS* / of RS* PS* ES* EdDSA (the case labels of the two arms), `gateFails` = the size-and-type "
+         "gate of the arm refused the key (it has written the message), `primFails` = the arm's primitive failed")
+    sk = Skeleton("_verify_sha_hmac", find_body(jc_, r"static\s+int\s+_verify_sha_hmac\s*\(", "_verify_sha_hmac"),
+                  atoms={"ret": ("?", "bool"), "(ret <= 0)": ("encFails", "bool")},
+                  effects={"decl res = NULL", "decl buf = NULL", "decl res_len", "decl ret"},
+                  sets={"ret = jwt_sign(jwt, &res, &res_len, head, head_len)": ("ret", ["signFails"]),
+                        "ret = jwt_base64uri_encode(&buf, res, res_len)": ("(ret <= 0)", ["encFails"])},
+                  rets={"1": "1", "(jwt_strcmp(buf, sig) ? 1 : 0)": "differs"})
+    emit(sk, "verifyShaHmac", [("signFails", "Bool"), ("encFails", "Bool"), ("differs", "Nat")],
+         "jwt.c `_verify_sha_hmac`: the MAC is recomputed with `jwt_sign`, encoded, and compared as text with `jwt_strcmp`; `differs` = 1 when the texts differ")
+    sk = Skeleton("jwt_verify_sig", find_body(jc_, r"\njwt_t\s*\*\s*jwt_verify_sig\s*\(", "jwt_verify_sig"),
+                  atoms=dict(alg_atoms, **{"(jwt->key->kty != JWK_KEY_TYPE_OCT)": ("keyNotOct", "bool"), "_verify_sha_hmac(jwt, head, head_len, sig_b64)": ("hmacFails", "bool"),
+                                           "__check_key_bits(jwt)": ("gateFails", "bool"), "sig": ("decodeNull", "ptr"),
+                                           "jwt_ops->verify_sha_pem(jwt, head, head_len, (unsigned char *)sig, sig_len)": ("primFails", "bool")}),
+                  effects={"decl sig_len", "decl sig = NULL", "sig = jwt_base64uri_decode(sig_b64, &sig_len)"}, rets={"jwt": "0"})
+    emit(sk, "verifySig", [("algIsHmac", "Bool"), ("algIsPk", "Bool"), ("keyNotOct", "Bool"), ("hmacFails", "Bool"), ("gateFails", "Bool"), ("decodeNull", "Bool"), ("primFails", "Bool")],
+         "jwt.c `jwt_verify_sig`: `w` = this function wrote \"Token failed verification\" / a decode or unknown-algorithm message (a failing gate writes its own); "
+         "the token object is returned on every path")
     # ================= JWK import =================
     jwks = strip_c(open(os.path.join(repo, "libjwt/jwks.c")).read())
     sk = Skeleton("process_octet", find_body(jwks, r"static\s+int\s+process_octet\s*\(", "process_octet"),
